@@ -3959,3 +3959,21 @@ package decimal128
 //@ ensures !isnan(x) && !isnan(y) ==> (a == 0 - 1 || a == 0) && (b == 0 - 1 || b == 0) && (a == 0 || b == 0)
 //@ ensures !isnan(x) && !isnan(y) ==> (c == 1 || c == 0) && (d == 1 || d == 0) && (c == 0 || d == 0)
 //@ props C04
+
+// FromInt32(x).Int32() == (x, true); FromUint32(x).Uint32() == (x, true) (C10).
+//@ func verifInt32RoundTrip
+//@ returns (y, ok)
+//@ logical V real
+//@ requires V >= 0 && rs(V, 6176) == ite(x < 0, 0 - x, x) && (x == 0 ==> V == 0)
+//@ call Decimal.Int32#1: V = V
+//@ call Decimal.Int32#1: T = ite(x < 0, 0 - x, x)
+//@ ensures ok && y == x
+//@ props C10
+//@ func verifUint32RoundTrip
+//@ returns (y, ok)
+//@ logical V real
+//@ requires V >= 0 && rs(V, 6176) == x && (x == 0 ==> V == 0)
+//@ call Decimal.Uint32#1: V = V
+//@ call Decimal.Uint32#1: T = x
+//@ ensures ok && y == x
+//@ props C10
